@@ -110,6 +110,83 @@ fn probe_fail_strategy() -> impl proptest::strategy::Strategy<Value = ProbeFail>
     (any::<u8>(), prop_oneof![Just(250u16), Just(300), 250u16..900], prop_oneof![Just(405u16), Just(450), 300u16..900], any::<u16>(), any::<bool>()).prop_map(|(victim, silent_ms, packets, nak_pick, classic)| ProbeFail { victim, silent_ms, packets, nak_pick, classic })
 }
 
+/// Process-wide state (statics, first-allocated ids) is fresh only once per process, and a generated search runs
+/// thousands of cases in one: this part runs every case in a process of its own (`vcheck fresh-case`), so that the
+/// links it creates are the first this process ever created.
+fn first_of_process(ctx: &Ctx, n: usize) {
+    use std::io::Write;
+    use proptest::strategy::{Strategy, ValueTree};
+    use proptest::test_runner::{Config, RngAlgorithm, RngSeed, TestRunner};
+    if ctx.failed() {
+        return;
+    }
+    let Ok(exe) = std::env::current_exe() else { return };
+    let mut runner = TestRunner::new(Config { rng_algorithm: RngAlgorithm::ChaCha, rng_seed: RngSeed::Fixed(crate::rt::mix_seed(ctx.seed, &ctx.id, "first-of-process", 0)), failure_persistence: None, ..Config::default() });
+    let strat = acct::first_links_strategy();
+    let cases: Vec<acct::Case> = (0..n).filter_map(|_| strat.new_tree(&mut runner).ok().map(|t| t.current())).collect();
+    let mut stats = crate::rt::PartStats::new(
+        "first-of-process",
+        "short accounting histories (unique copy on one link, probe copy on another, the number NAKed twice, generated noise around), each run as the first thing a new process does: the links are the first the process ever created; same oracle as the history part; non-trivial = a repeated NAK met two holders",
+    );
+    let results: Vec<(usize, String)> = std::thread::scope(|sc| {
+        let hs: Vec<_> = cases
+            .chunks(cases.len().div_ceil(ctx.workers.max(1)).max(1))
+            .enumerate()
+            .map(|(ci, chunk)| {
+                let exe = &exe;
+                let base = ci * cases.len().div_ceil(ctx.workers.max(1)).max(1);
+                sc.spawn(move || {
+                    let mut out = Vec::new();
+                    for (k, case) in chunk.iter().enumerate() {
+                        let child = std::process::Command::new(exe).arg("fresh-case").arg("C05").stdin(std::process::Stdio::piped()).stdout(std::process::Stdio::piped()).stderr(std::process::Stdio::null()).spawn();
+                        let Ok(mut child) = child else { continue };
+                        if let Some(mut si) = child.stdin.take() {
+                            let _ = si.write_all(serde_json::to_string(case).unwrap_or_default().as_bytes());
+                        }
+                        let Ok(o) = child.wait_with_output() else { continue };
+                        let text = String::from_utf8_lossy(&o.stdout).to_string();
+                        if let Some(l) = text.lines().find(|l| l.starts_with("FRESH ")) {
+                            out.push((base + k, l.to_string()));
+                        }
+                    }
+                    out
+                })
+            })
+            .collect();
+        hs.into_iter().flat_map(|h| h.join().unwrap_or_default()).collect()
+    });
+    let mut first_viol: Option<(usize, String, String)> = None;
+    for (k, line) in &results {
+        let mut obs = crate::rt::Obs::default();
+        if let Some(rest) = line.strip_prefix("FRESH ok ") {
+            if let Ok(cl) = serde_json::from_str::<Vec<String>>(rest) {
+                obs.nontrivial = cl.iter().any(|c| c.contains("repeat") || c.contains("probe-copy"));
+                obs.classes = cl;
+            }
+        } else if let Some(rest) = line.strip_prefix("FRESH viol ") {
+            let (sig, msg) = rest.split_once('|').unwrap_or((rest, ""));
+            if first_viol.is_none() {
+                first_viol = Some((*k, sig.to_string(), msg.to_string()));
+            }
+            obs.nontrivial = true;
+        }
+        if obs.nontrivial {
+            obs.sample = Some(serde_json::json!({"n_ops": cases[*k].ops.len(), "links": cases[*k].n_links}));
+        }
+        let h = crate::rt::hash_of(&cases[*k]);
+        stats.record(h, obs, || serde_json::to_value(&cases[*k]).unwrap_or(serde_json::Value::Null));
+    }
+    ctx.add_part(stats);
+    if let Some((k, sig, msg)) = first_viol {
+        let v = crate::rt::Violation { sig, msg: format!("{msg} (in a process whose first links these are; replay with --replay, which also starts a new process)") };
+        if ctx.is_known(&v.sig).is_some() {
+            ctx.print_known(&v.sig);
+        } else {
+            ctx.report_violation("first-of-process", &v, serde_json::to_value(&cases[k]).unwrap_or(serde_json::Value::Null));
+        }
+    }
+}
+
 pub fn run(ctx: &Ctx) -> &'static str {
     ctx.assume("ownership model: last unique routing per slot (seq mod 16384), valid for 5000 ms inclusive, purged when its link is removed by a reload; written independently of SequenceTracker");
     ctx.assume("[history] probe copies are queued the way send_stall_probes does it (queue_data_packet without a tracker entry); [real-routing] they are made by the real send_stall_probes inside handle_srt_packet");
@@ -117,6 +194,7 @@ pub fn run(ctx: &Ctx) -> &'static str {
         if !ctx.replay_case::<acct::Case, _>("history", &file, &body, |c, o| acct::check(c, o, Which::C05))
             && !ctx.replay_case::<decide::Case, _>("real-routing", &file, &body, |c, o| decide::check(c, o, decide::Which::C05, ctx))
             && !ctx.replay_case::<ProbeFail, _>("probe-flush-failure", &file, &body, check_probe_fail)
+            && !ctx.replay_case::<acct::Case, _>("first-of-process", &file, &body, |c, o| acct::check(c, o, Which::C05))
         {
             eprintln!("replay {}: unknown part", file.display());
         }
@@ -147,5 +225,6 @@ pub fn run(ctx: &Ctx) -> &'static str {
         probe_fail_strategy,
         |_| check_probe_fail,
     );
+    first_of_process(ctx, ctx.tier.pick(48, 400));
     "exploration"
 }
